@@ -24,8 +24,8 @@ Section NodeInd.
   Hypothesis H16 : forall ins out, Forall P ins -> OptP P out -> P (NParenArgs ins out).
   Hypothesis H17 : forall t, P t -> P (NArgType t).
   Hypothesis H18 : forall l, P (NArgLifetime l).
-  Hypothesis H19 : forall t, P t -> P (NArgAssocType t).
-  Hypothesis H20 : forall bs, Forall P bs -> P (NArgConstraint bs).
+  Hypothesis H19 : forall g t, P g -> P t -> P (NArgAssocType g t).
+  Hypothesis H20 : forall g bs, P g -> Forall P bs -> P (NArgConstraint g bs).
   Hypothesis H21 : P NArgConst.
   Hypothesis H22 : forall bl p, P p -> P (NBoundTrait bl p).
   Hypothesis H23 : forall l, P (NBoundLifetime l).
@@ -61,8 +61,8 @@ Section NodeInd.
     | NParenArgs ins out => H16 ins out (all ins) (opt out)
     | NArgType t => H17 t (node_ind' t)
     | NArgLifetime l => H18 l
-    | NArgAssocType t => H19 t (node_ind' t)
-    | NArgConstraint bs => H20 bs (all bs)
+    | NArgAssocType g t => H19 g t (node_ind' g) (node_ind' t)
+    | NArgConstraint g bs => H20 g bs (node_ind' g) (all bs)
     | NArgConst => H21
     | NBoundTrait bl p => H22 bl p (node_ind' p)
     | NBoundLifetime l => H23 l
@@ -168,7 +168,7 @@ Section Main.
   Qed.
 
   Lemma occ_list_like x (mk : list node -> node) bs :
-    (mk = NTraitObject \/ mk = NImplTrait \/ mk = NArgConstraint \/ mk = NTuple \/ mk = NAngle) ->
+    (mk = NTraitObject \/ mk = NImplTrait \/ mk = NTuple \/ mk = NAngle) ->
     (Occ x (mk bs) <-> exists b, In b bs /\ Occ x b).
   Proof.
     intros H. split.
@@ -176,13 +176,12 @@ Section Main.
     - intros [b [I O]]. split_all; subst.
       + eapply OBounds; eauto.
       + eapply OBounds; eauto.
-      + eapply OBounds; eauto.
       + eapply OTuple; eauto.
       + eapply OAngle; eauto.
   Qed.
 
   Lemma good_list_like (mk : list node -> node) bs :
-    (mk = NTraitObject \/ mk = NImplTrait \/ mk = NArgConstraint \/ mk = NTuple \/ mk = NAngle) ->
+    (mk = NTraitObject \/ mk = NImplTrait \/ mk = NTuple \/ mk = NAngle) ->
     Forall (Good declare set) bs -> Good declare set (mk bs).
   Proof.
     intros H F K.
@@ -221,10 +220,25 @@ Section Main.
     intros x. rewrite Q, in_app_iff, Q1, Q2, (occ_fn_like x mk ins out H). tauto.
   Qed.
 
-  Lemma occ_arg x t n : (n = NArgType t \/ n = NArgAssocType t) -> (Occ x n <-> Occ x t).
+  Lemma occ_arg x t : Occ x (NArgType t) <-> Occ x t.
   Proof.
-    intros H. split; [|intros O; eapply OArg; eauto].
-    intros O. split_all; subst; inv_occ O; assumption.
+    split; [|intros O; eapply OArg; eauto].
+    intros O. inv_occ O; assumption.
+  Qed.
+
+  (** an associated-type binding: its own generic arguments, or the bound type *)
+  Lemma occ_assoc x g t : Occ x (NArgAssocType g t) <-> Occ x g \/ Occ x t.
+  Proof.
+    split.
+    - intros O. inv_occ O; auto.
+    - intros [O|O]; [eapply OAssocGen; eauto|eapply OArg; eauto].
+  Qed.
+
+  Lemma occ_constraint x g bs : Occ x (NArgConstraint g bs) <-> Occ x g \/ exists b, In b bs /\ Occ x b.
+  Proof.
+    split.
+    - intros O. inv_occ O; eauto.
+    - intros [O|[b [I O]]]; [eapply OAssocGen; eauto|eapply OBounds; eauto].
   Qed.
 
   Lemma occ_path x q leading segs :
@@ -314,11 +328,18 @@ Section Main.
     - apply (good_list_like NAngle); auto 10.
     - apply (good_fn_like NParenArgs); eauto.
     - intros K. destruct (IHn K) as [P Q]. split; [exact P|]. intros x.
-      rewrite (occ_arg x n (NArgType n)) by auto. apply Q.
+      rewrite (occ_arg x n). apply Q.
     - intros _. split; [reflexivity|]. intros x. cbn. split; [intros []|intros [_ O]; inv_occ O].
-    - intros K. destruct (IHn K) as [P Q]. split; [exact P|]. intros x.
-      rewrite (occ_arg x n (NArgAssocType n)) by auto. apply Q.
-    - apply (good_list_like NArgConstraint); auto 10.
+    - (* Item<g> = t *)
+      intros K. cbn [known] in K. apply andb_true_iff in K as [K1 K2].
+      destruct (IHn1 K1) as [P1 Q1]. destruct (IHn2 K2) as [P2 Q2].
+      cbn [uses_tp]. destruct (uapp_ok _ _ P1 P2) as [P Q]. split; [exact P|]. intros x.
+      rewrite Q, in_app_iff, Q1, Q2, occ_assoc. tauto.
+    - (* Item<g>: bounds *)
+      intros K. cbn [known] in K. apply andb_true_iff in K as [K1 K2].
+      destruct (IHn K1) as [P1 Q1]. destruct (all_good declare set bs H K2) as [P2 Q2].
+      cbn [uses_tp]. destruct (uapp_ok _ _ P1 P2) as [P Q]. split; [exact P|]. intros x.
+      rewrite Q, in_app_iff, Q1, Q2, occ_constraint. tauto.
     - intros _. split; [reflexivity|]. intros x. cbn. split; [intros []|intros [_ O]; inv_occ O].
     - intros K. destruct (IHn K) as [P Q]. split; [exact P|]. intros x. cbn [uses_tp]. rewrite Q.
       split; intros [S O]; (split; [exact S|]).
@@ -378,7 +399,8 @@ Section Lt.
     - now apply sub_all.
     - intros Hx. apply hits_uapp in Hx as [Hx|Hx]; [eapply sub_all; eauto|eapply sub_opt; eauto].
     - cbn. apply lt_hits_sub.
-    - now apply sub_all.
+    - intros Hx. apply hits_uapp in Hx as [Hx|Hx]; [now apply IHn1|now apply IHn2].
+    - intros Hx. apply hits_uapp in Hx as [Hx|Hx]; [now apply IHn|eapply sub_all; eauto].
     - intros Hx. apply hits_uapp in Hx as [Hx|Hx]; [now apply IHn|].
       cbn in Hx. apply in_flat_map in Hx as [l [_ Hl]]. now apply lt_hits_sub in Hl.
     - cbn. apply lt_hits_sub.
